@@ -24,6 +24,7 @@ import c16_exec as X
 
 MODEL_FILES = ['MaltModel/Rt/Ctx.lean', 'MaltModel/Generated/Ctx.lean', 'MaltModel/Proofs/C16.lean', 'MaltModel/Drv/C16.lean']
 KINDS = ['plain', 'dnc', 'unspec', 'ctx', 'fs', 'conv', 'iconv']
+REFUSED_FEATURES = ['NAME_SCOPES', 'AUTO_CONTROL_DEPS', 'ALL', 'LISTS+NAME_SCOPES']
 
 
 # ---------------------------------------------------------------------- generation
@@ -42,16 +43,24 @@ def gen_node(rng, budget, depth, maxdepth):
         nd['rec'] = rng.random() < 0.8
         if nd['via'] == 'tograph' and nd['v'] not in ('for', 'while'):
             nd['v'] = 'for'
+        if rng.random() < 0.15:
+            nd['feat'] = rng.choice(REFUSED_FEATURES)
     elif k == 'conv':
         nd['ur'] = rng.random() < 0.6
         nd['c'] = rng.choice(['null', 'null', 'current', ['obj', rng.randrange(X.N_SHARED)], ['obj', rng.randrange(X.N_SHARED)]])
         nd['rec'] = rng.random() < 0.8
         nd['via'] = rng.choice(['api', 'malt'])
+        if rng.random() < 0.15:
+            nd['feat'] = rng.choice(REFUSED_FEATURES)
     elif k == 'iconv':
         nd['ur'] = rng.random() < 0.5
         nd['c'] = rng.choice(['current', 'current', ['obj', rng.randrange(X.N_SHARED)], ['obj', rng.randrange(X.N_SHARED)]])
         nd['cbd'] = rng.random() < 0.5
         nd['via'] = rng.choice(['api', 'malt'])
+    if depth > 0 and rng.random() < 0.14 and gen_allowed(nd):
+        nd['v'] = rng.choice(['gen', 'gen', 'genmeth'])
+        if rng.random() < 0.2:
+            nd['take'] = rng.randrange(0, 3)
     used = 1
     ch = []
     if depth < maxdepth:
@@ -69,6 +78,28 @@ def gen_node(rng, budget, depth, maxdepth):
     return nd, used
 
 
+def gen_allowed(nd):
+    """Wrappers under which a *generator function* callee is handed over as it is (malt does not convert generator
+    functions; kinds that would try to, or whose source-level block does not return the generator, are left out)."""
+    k = nd['k']
+    if nd.get('feat'):
+        return False
+    if k in ('plain', 'dnc', 'unspec'):
+        return True
+    if k == 'ctx':
+        return nd.get('via') == 'helper'
+    if k == 'fs':
+        return nd.get('via') in ('scope', 'wfs')
+    if k in ('conv', 'iconv'):
+        return not nd['ur']
+    return False
+
+
+def tied(t):
+    """Is the whole tree within what the model describes?  (Not: generators the consumer leaves suspended.)"""
+    return all(nd.get('take') is None for nd, _ in nodes_of(t))
+
+
 def gen_tree(rng, maxsize, maxdepth):
     return gen_node(rng, max(rng.randint(1, maxsize), rng.randint(1, maxsize)), 0, maxdepth)[0]
 
@@ -83,8 +114,10 @@ def tree_stats(t, cov):
     n = 0
     for nd, d in nodes_of(t):
         n += 1
-        cov['kinds'][nd['k'] + (':' + nd.get('via', '') if nd.get('via') else '')] += 1
+        cov['kinds'][nd['k'] + (':' + nd.get('via', '') if nd.get('via') else '') + ('+refused-feature' if nd.get('feat') else '')] += 1
         cov['variants'][nd.get('v', 'for')] += 1
+        if X.is_gen(nd):
+            cov['generator_callees'][nd['k'] + (':' + nd.get('via', '') if nd.get('via') else '')] += 1
         if nd['ra'] is not None:
             cov['raise_depth'][d] += 1
         if nd['ca']:
@@ -120,9 +153,15 @@ def shrink_variants(t):
         yield dict(t, ra=None)
     if t['ca']:
         yield dict(t, ca=False)
+    if t.get('feat'):
+        yield {k: v for k, v in t.items() if k != 'feat'}
+    if X.is_gen(t) and t.get('v') != 'gen':
+        yield dict(t, v='gen')
+    if t.get('take') is not None:
+        yield {k: v for k, v in t.items() if k != 'take'}
     if t['k'] != 'plain':
         yield {'k': 'plain', 'v': t.get('v', 'for'), 'ch': t['ch'], 'ra': t['ra'], 'ca': t['ca']}
-    if t.get('v', 'for') != 'for' and not (t['k'] == 'fs' and t.get('via') == 'tograph_lam'):
+    if t.get('v', 'for') != 'for' and not (t['k'] == 'fs' and t.get('via') == 'tograph_lam') and not X.is_gen(t):
         yield dict(t, v='for')
     for i, c in enumerate(t['ch']):
         for c2 in shrink_variants(c):
@@ -134,7 +173,7 @@ def size(t):
 
 
 def complexity(t):
-    return sum(3 + (nd['k'] != 'plain') + (nd['ra'] is not None) + nd['ca'] + (nd.get('v', 'for') != 'for') for nd, _ in nodes_of(t))
+    return sum(3 + (nd['k'] != 'plain') + (nd['ra'] is not None) + nd['ca'] + (nd.get('v', 'for') != 'for') + bool(nd.get('feat')) for nd, _ in nodes_of(t))
 
 
 def shrink(t, fails, budget=300):
@@ -261,7 +300,7 @@ class Checker(object):
     def __init__(self, run):
         self.run = run
         self.cov = {'kinds': collections.Counter(), 'variants': collections.Counter(), 'raise_depth': collections.Counter(),
-                    'catch_depth': collections.Counter(), 'tree_size': collections.Counter(),
+                    'catch_depth': collections.Counter(), 'tree_size': collections.Counter(), 'generator_callees': collections.Counter(),
                     'threads': collections.Counter(), 'outcomes': collections.Counter(),
                     'exception_travel_levels': collections.Counter(), 'status_inside': collections.Counter(),
                     'log_length': collections.Counter(), 'max_stack_depth_model': collections.Counter()}
@@ -276,6 +315,8 @@ class Checker(object):
         probs, env, cl = seq_problems(tree)
         n = tree_stats(tree, self.cov)
         self.n_seq += 1
+        if not tied(tree):
+            self.cov['trees_judged_by_direct_oracle_only'] = self.cov.get('trees_judged_by_direct_oracle_only', 0) + 1
         self.cov['outcomes'][env.outcome[0]] += 1
         self.cov['log_length'][min(len(cl), 200) // 20 * 20] += 1
         for lv in exception_travel(cl):
@@ -289,7 +330,8 @@ class Checker(object):
             run.sample({'tree': tree, 'real_log': cl, 'outcome': env.outcome})
         if probs:
             self.report({'mode': 'seq', 'trees': [tree], 'problems': probs[:5], 'origin': origin}, shrink_it)
-        self.model_jobs.append(('c16.run ' + sexp(X.tree_sexp(tree)), (env.outcome, cl, X.canon_stack(env)), 'run',
+        if tied(tree):
+          self.model_jobs.append(('c16.run ' + sexp(X.tree_sexp(tree)), (env.outcome, X.model_view(cl), X.canon_stack(env)), 'run',
                                 {'mode': 'seq', 'trees': [tree]}))
         return probs, cl, env.outcome
 
@@ -309,7 +351,8 @@ class Checker(object):
             self.report({'mode': mode, 'trees': trees, 'schedule': schedule, 'jitter_seed': jitter_seed, 'problems': allp[:5],
                          'origin': origin}, shrink_it)
         for (probs, env, cl), t in zip(res, trees):
-            self.model_jobs.append(('c16.run ' + sexp(X.tree_sexp(t)), (env.outcome, cl, X.canon_stack(env)), 'run-threaded',
+            if tied(t):
+              self.model_jobs.append(('c16.run ' + sexp(X.tree_sexp(t)), (env.outcome, X.model_view(cl), X.canon_stack(env)), 'run-threaded',
                                     {'mode': mode, 'trees': trees, 'schedule': schedule, 'jitter_seed': jitter_seed}))
         return allp
 
@@ -423,6 +466,7 @@ def check(run, only_case=None):
         'object identity is compared while every observed context object is kept alive (no address reuse)',
         'model kinds abstract how a wrapper is reached (e.g. FunctionScope entered by hand and with_function_scope are the same kind); the realisations are listed in coverage.kinds',
         'whether a body is converted code is observed by frame inspection (nearest frame named ag__<body> or <body>)',
+        'generator-function callees: the model sees their body as run natively at the consumer\'s level; that the wrapper call creating the generator and every resumption leave the consumer\'s context alone is judged by the direct oracle only (observations made / res)',
     ]
     run.translate(['Ctx'])
     run.build_and_audit('MaltModel.Props.C16', model_files=MODEL_FILES)
